@@ -44,7 +44,7 @@ def exec_c02(cfg, devs):
     vsched.clear_traced_functions()
     if cfg.get('lines'):
         vsched.trace_functions(_traced_functions())
-    ex = cfh.Exec(devs, dev, time_limit=cfg.get('limit', 14.0), reply_menu=('once',),
+    ex = cfh.Exec(devs, dev, time_limit=cfg.get('limit', 14.0), reply_menu=('once',), policy=cfg.get('policy'),
                   send_fault=cfg.get('send_fault', False), needs_resending=cfg.get('resend', True))
     ex.env.on_fault = lambda kind: ex.log('fault', kind)
     ex.env.hello = bool(cfg.get('hello'))
@@ -350,6 +350,8 @@ def configs(quick):
         _cfg('cf:p10:hello', 'cf', 10, send_fault=True, nlog=0, nparam=1, hello=True),
         _cfg('cf:p10:hello:eager', 'cf', 10, send_fault=True, nlog=0, nparam=1, hello=True, eager=True),
         _cfg('scf:p10:hello:eager', 'scf', 10, send_fault=True, nlog=0, nparam=1, hello=True, eager=True),
+        _cfg('cf:p10:hello:handoff', 'cf', 10, send_fault=True, nlog=0, nparam=1, hello=True, policy='handoff'),
+        _cfg('scf:p10:handoff', 'scf', 10, send_fault=True, nlog=0, nparam=1, policy='handoff'),
     ]
     return out
 
